@@ -65,9 +65,26 @@ def _bound_names(fn):
     return out
 
 
-def normal_form(func, subs=(), keep_name=False, keep_param_names=False, post_subs=()):
+def sort_pair_elements(lines):
+    """Order-free reading of 2-tuples of calls (a row is the same pair whichever end is written first)."""
+    out = []
+    for t in lines:
+        try:
+            tree = ast.parse(t)
+        except SyntaxError:
+            out.append(t)
+            continue
+        for n in ast.walk(tree):
+            if isinstance(n, ast.Tuple) and len(n.elts) == 2 and all(isinstance(e, ast.Call) for e in n.elts):
+                n.elts.sort(key=ast.unparse)
+        out.append(ast.unparse(tree))
+    return out
+
+
+def normal_form(func, subs=(), keep_name=False, keep_param_names=False, post_subs=(), post_fn=None):
     """List of normalised top-level statements (strings) of the function body."""
-    src = ast.unparse(func.node)
+    from ..canon import canonical
+    src = ast.unparse(canonical(func.node))          # idiom-independent form (sa/canon.py)
     tree = ast.parse(src)
     fn = tree.body[0]
     fn.decorator_list = []
@@ -95,12 +112,15 @@ def normal_form(func, subs=(), keep_name=False, keep_param_names=False, post_sub
     body = [ast.unparse(s) for s in fn.body]
     for pat, rep in post_subs:          # role-map entries over the alpha-renamed text (v0, v1, ...): independent of local names
         body = [re.sub(pat, rep, t) for t in body]
+    if post_fn is not None:
+        body = post_fn(body)
     return header, body
 
 
 class Pair:
     def __init__(self, name, a, b, subs=(), mode="equal", expected=(), props=(), why="", c=None, header=True,
-                 keep_params=False, post_subs=()):
+                 keep_params=False, post_subs=(), post_fn=None):
+        self.post_fn = post_fn
         self.keep_params = keep_params
         self.post_subs = post_subs
         self.name, self.a, self.b, self.c = name, a, b, c
@@ -110,8 +130,8 @@ class Pair:
 def compare_pair(ctx, pair, clause):
     p = ctx.p
     fa, fb = p.func(pair.a), p.func(pair.b)
-    ha, sa = normal_form(fa, pair.subs, keep_param_names=pair.keep_params, post_subs=pair.post_subs)
-    hb, sb = normal_form(fb, pair.subs, keep_param_names=pair.keep_params, post_subs=pair.post_subs)
+    ha, sa = normal_form(fa, pair.subs, keep_param_names=pair.keep_params, post_subs=pair.post_subs, post_fn=pair.post_fn)
+    hb, sb = normal_form(fb, pair.subs, keep_param_names=pair.keep_params, post_subs=pair.post_subs, post_fn=pair.post_fn)
     key = "R-TWIN|%s" % pair.name
     loc = fa.loc()
 
@@ -206,8 +226,8 @@ PAIRS = [
          subs=DIR, props=("C14", "C03", "C09")),
     Pair("annotate-target-subject-object", AFD + "_annotate_target_subject", IRF + "_annotate_target_object",
          subs=DIR + SO,
-         expected=[(r"v\d = \[\] if v\d not in \[IRI_ELEM_TYPE, BNODE_ELEM_TYPE\] else self\._decide_shapes_elem\(v\d\[_ROLE\]\.iri\)",
-                    r"v\d = \[\] if v\d != IRI_ELEM_TYPE else self\._decide_shapes_elem\(v\d\[_ROLE\]\.iri\)",
+         expected=[(r"v\d = self\._decide_shapes_elem\(v\d\[_ROLE\]\.iri\) if v\d in \[IRI_ELEM_TYPE, BNODE_ELEM_TYPE\] else \[\]",
+                    r"v\d = self\._decide_shapes_elem\(v\d\[_ROLE\]\.iri\) if v\d == IRI_ELEM_TYPE else \[\]",
                     "blank-node subjects of incoming links are classified without shape references (by design, see C14's quantifier)")],
          props=("C14", "C01")),
     Pair("introduce-needed-subj-obj", AFD + "_introduce_needed_elements_in_shape_instances_dict_for_subj",
@@ -256,7 +276,7 @@ PAIRS = [
     Pair("endpoint-dispatch-po-vs-sp", ESG + "yield_p_o_triples_of_an_s", ESG + "yield_s_p_triples_of_an_o",
          subs=[(r"p_o_triples_of_an_s", "triples_of_a_node"), (r"s_p_triples_of_an_o", "triples_of_a_node")], props=("C15",)),
     Pair("endpoint-query-po-vs-sp", "shexer.io.sparql.query:query_endpoint_po_of_an_s", "shexer.io.sparql.query:query_endpoint_sp_of_an_o",
-         subs=[(r"\bo_id\b", "x_id"), (r"\bs_id\b", "x_id")], post_subs=[(r"\(\((v\d+), (v\d+)\)\)", "((PAIR))")],
+         subs=[(r"\bo_id\b", "x_id"), (r"\bs_id\b", "x_id")], post_subs=[(r"\(\((v\d+), (v\d+)\)\)", "((PAIR))")], post_fn=sort_pair_elements,
          props=("C15",), header=False, keep_params=True),
     Pair("min-iri-and-examples-union", CP + "_annotate_min_iris", CP + "_annotate_shape_examples", mode="union",
          c=CP + "_annotate_shape_examples_and_min_iris", props=("C17",)),
@@ -296,8 +316,8 @@ PAIRS = [
          props=()),
     Pair("strategy-init-direct-vs-2d", DSS + "__init__", DIS + "__init__", props=("C14",)),
     Pair("has-annotated-features", DFS + "has_shape_annotated_features", IRF + "has_shape_annotated_features",
-         expected=[(r"return len\(self\._c_shapes_dict\[v0\]\) > 0",
-                    r"return len\(self\._c_shapes_dict\[v0\]\[_C_MAP_POS_DIRECT\]\) > 0 or len\(self\._c_shapes_dict\[v0\]\[_C_MAP_POS_INVERSE\]\) > 0",
+         expected=[(r"return len\(self\._c_shapes_dict\[v0\]\) > 0 if v0 in self\._c_shapes_dict else False",
+                    r"return len\(self\._c_shapes_dict\[v0\]\[_C_MAP_POS_DIRECT\]\) > 0 or len\(self\._c_shapes_dict\[v0\]\[_C_MAP_POS_INVERSE\]\) > 0 if v0 in self\._c_shapes_dict else False",
                     "with inverse paths a shape has features when either half has")], props=("C02", "C14")),
 ]
 
